@@ -2,6 +2,7 @@ package props
 
 import (
 	"bytes"
+	"encoding/hex"
 	"encoding/json"
 	"fmt"
 
@@ -109,6 +110,18 @@ func c13ScriptCheck(c c13Script) (fs []rep.Finding) {
 	} else if derr == nil {
 		fs = append(fs, rep.F("DecodeParts|accepts-truncated-push", "a truncated push was not reported"))
 	}
+	// the hex-string decoder is the same decoder
+	sparts, serr := bscript.DecodeStringParts(hex.EncodeToString(raw))
+	if (serr == nil) != (derr == nil) || len(sparts) != len(parts) {
+		fs = append(fs, rep.F("DecodeStringParts|disagrees-with-DecodeParts", fmt.Sprintf("err %v vs %v, %d vs %d parts", serr, derr, len(sparts), len(parts))))
+	} else {
+		for i := range parts {
+			if !bytes.Equal(parts[i], sparts[i]) {
+				fs = append(fs, rep.F("DecodeStringParts|disagrees-with-DecodeParts", fmt.Sprintf("part %d", i)))
+				break
+			}
+		}
+	}
 
 	// Parse / Unparse
 	p := &interpreter.DefaultOpcodeParser{}
@@ -190,10 +203,55 @@ func c13PartsCheck(c c13Parts) (fs []rep.Finding) {
 			fs = append(fs, rep.F("DecodeParts|roundtrip-item", fmt.Sprintf("item %d differs", i)))
 		}
 	}
+	// results belong to the caller: encoding and decoding other items must not change them
+	{
+		encWas := append([]byte(nil), enc...)
+		var other [][]byte
+		for _, pt := range parts {
+			o := append([]byte(nil), pt...)
+			for k := range o {
+				o[k] ^= 0xff
+			}
+			other = append(other, o)
+		}
+		for i := 0; i < 3; i++ {
+			if e2, err := bscript.EncodeParts(other); err == nil {
+				_, _ = bscript.DecodeParts(e2)
+				s2 := &bscript.Script{}
+				_ = s2.AppendPushDataArray(other)
+			}
+		}
+		changed := !bytes.Equal(enc, encWas)
+		for i := range parts {
+			if !bytes.Equal(dec[i], parts[i]) {
+				changed = true
+			}
+		}
+		if changed && len(fs) == 0 {
+			fs = append(fs, rep.F("returned-bytes-change-later", "bytes returned by EncodeParts/DecodeParts changed when other items were encoded or decoded"))
+		}
+	}
 	// Script builders use the same encoder
 	s := &bscript.Script{}
 	if err := s.AppendPushDataArray(parts); err != nil || !bytes.Equal(*s, want) {
 		fs = append(fs, rep.F("AppendPushDataArray|differs", "builder output differs from reference"))
+	}
+	{
+		s1, s2, s3, s4 := &bscript.Script{}, &bscript.Script{}, &bscript.Script{}, &bscript.Script{}
+		var strs []string
+		bad := false
+		for _, pt := range parts {
+			if s1.AppendPushData(pt) != nil || s2.AppendPushDataHexString(hex.EncodeToString(pt)) != nil || s3.AppendPushDataString(string(pt)) != nil {
+				bad = true
+			}
+			strs = append(strs, string(pt))
+		}
+		if s4.AppendPushDataStrings(strs) != nil {
+			bad = true
+		}
+		if bad || !bytes.Equal(*s1, want) || !bytes.Equal(*s2, want) || !bytes.Equal(*s3, want) || !bytes.Equal(*s4, want) {
+			fs = append(fs, rep.F("AppendPushData*|differs", "a push builder (bytes / hex string / string / strings) differs from the reference encoding"))
+		}
 	}
 	// and the interpreter's parser agrees
 	p := &interpreter.DefaultOpcodeParser{}
